@@ -1412,3 +1412,42 @@ mod tests {
         quickcheck(prop as fn(_, _))
     }
 }
+
+/// Verification hooks (only with `--cfg libp2p_verif`): read-only view of the endpoint state.
+#[cfg(libp2p_verif)]
+impl<C> Multiplexed<C> {
+    pub(crate) fn verif_snapshot(&self) -> crate::verif::Snapshot {
+        let mut substreams: Vec<crate::verif::SubstreamInfo> = self
+            .substreams
+            .iter()
+            .map(|(id, state)| {
+                let (num, role) = id.verif_parts();
+                let (name, buf) = match state {
+                    SubstreamState::Open { buf } => ("Open", buf),
+                    SubstreamState::SendClosed { buf } => ("SendClosed", buf),
+                    SubstreamState::RecvClosed { buf } => ("RecvClosed", buf),
+                    SubstreamState::Closed { buf } => ("Closed", buf),
+                    SubstreamState::Reset { buf } => ("Reset", buf),
+                };
+                crate::verif::SubstreamInfo {
+                    num,
+                    role,
+                    state: name,
+                    buffered_frames: buf.len(),
+                }
+            })
+            .collect();
+        substreams.sort_by_key(|s| (s.num, s.role == libp2p_core::Endpoint::Listener));
+        crate::verif::Snapshot {
+            substreams,
+            open_buffer: self.open_buffer.len(),
+            pending_frames: self.pending_frames.len(),
+            blocking: self.blocking_stream.map(|id| id.verif_parts()),
+            status: match &self.status {
+                Status::Open => "Open",
+                Status::Closed => "Closed",
+                Status::Err(_) => "Err",
+            },
+        }
+    }
+}
